@@ -1,5 +1,6 @@
 //! Shared pieces of the correspondence harness: PRNG, hex, output files.
 pub mod prog;
+pub mod gram;
 use std::fmt::Write as _;
 use std::fs;
 use std::io::Write as _;
